@@ -1,6 +1,6 @@
 //! C18 — custom rules and user-defined unit families: registration, effect, removal.
 
-use crate::explore::{Family, Mode, Verdict};
+use crate::explore::{Bfs, Family, Mode, Verdict};
 use crate::obs::{self, Base, Run, Slot, Val};
 use crate::runner::{Cfg, Ctx, Prop, Tier};
 use crate::seam;
@@ -21,6 +21,9 @@ pub enum Op {
     AddType(String),
     /// add_dynamic_type_item("t1", variant): variants 1, 2, 3 and 9 (= index 2 again, other codes)
     AddItem(u8),
+    /// add_dynamic_type_item("t2", index): a second user family whose indices are 2, 3, 4 (they do
+    /// not start at 1 and may be registered in any order)
+    AddItem2(u8),
 }
 
 #[derive(Clone, Debug, Serialize, Deserialize)]
@@ -30,6 +33,10 @@ pub struct Case {
     /// (every violation is confirmed on a fresh calculator before it is reported)
     #[serde(default)]
     pub pooled: bool,
+    /// merged breadth-first layer: (max live English rules, max live Turkish rules) of the state
+    /// constraint; the verdict then carries the canonical key of the state reached
+    #[serde(default, skip_serializing_if = "Option::is_none")]
+    pub bfs: Option<(usize, usize)>,
 }
 
 // ---- the rules ---------------------------------------------------------------------------
@@ -108,6 +115,15 @@ fn item_args(variant: u8) -> (usize, &'static str, &'static str, &'static str, &
     }
 }
 
+fn item2_args(index: u8) -> (usize, &'static str, &'static str, &'static str, &'static str) {
+    // btwo = 1, bthree = 4 btwo, bfour = 3 bthree
+    match index {
+        2 => (2, "btwo", "{value} / 4", "{value}", "{value} btwo"),
+        3 => (3, "bthree", "{value} / 3", "{value} * 4", "{value} bthree"),
+        _ => (4, "bfour", "{value}", "{value} * 3", "{value} bfour"),
+    }
+}
+
 fn apply(calc: &mut SmartCalc, op: &Op) -> Result<bool, seam::PanicInfo> {
     seam::guarded(|| match op {
         Op::AddRule(lang, id) => {
@@ -121,6 +137,11 @@ fn apply(calc: &mut SmartCalc, op: &Op) -> Result<bool, seam::PanicInfo> {
             let parse = format!("{{NUMBER:value}} {{TEXT:type:{}}}", unit);
             calc.add_dynamic_type_item("t1", index, format, vec![parse.as_str()], up, down, vec![unit.to_string()], None, None, None)
         }
+        Op::AddItem2(index) => {
+            let (index, unit, up, down, format) = item2_args(*index);
+            let parse = format!("{{NUMBER:value}} {{TEXT:type:{}}}", unit);
+            calc.add_dynamic_type_item("t2", index, format, vec![parse.as_str()], up, down, vec![unit.to_string()], None, None, None)
+        }
     })
 }
 
@@ -132,6 +153,8 @@ struct Model {
     rules: Vec<(String, char)>,
     /// does the user family t1 exist, and which item variants were accepted (by index)
     t1: Option<BTreeMap<usize, u8>>,
+    /// does the user family t2 exist, and which of its indices (2, 3, 4) are registered
+    t2: Option<std::collections::BTreeSet<usize>>,
 }
 
 impl Model {
@@ -167,11 +190,24 @@ impl Model {
                 if name == "t1" && m.t1.is_none() {
                     m.t1 = Some(BTreeMap::new());
                     (true, vec![m])
+                } else if name == "t2" && m.t2.is_none() {
+                    m.t2 = Some(Default::default());
+                    (true, vec![m])
                 } else {
                     // "memory" is a built-in family, a second t1 is a duplicate
                     (false, vec![m])
                 }
             }
+            Op::AddItem2(index) => match &mut m.t2 {
+                None => (false, vec![self.clone()]),
+                Some(items) => {
+                    if items.insert(*index as usize) {
+                        (true, vec![m])
+                    } else {
+                        (false, vec![self.clone()])
+                    }
+                }
+            },
             Op::AddItem(variant) => {
                 let (index, ..) = item_args(*variant);
                 match &mut m.t1 {
@@ -201,7 +237,29 @@ impl Model {
                 let _ = apply(&mut calc, &Op::AddItem(*variant));
             }
         }
+        if let Some(items) = &self.t2 {
+            let _ = apply(&mut calc, &Op::AddType("t2".into()));
+            for i in items.iter() {
+                let _ = apply(&mut calc, &Op::AddItem2(*i as u8));
+            }
+        }
         calc
+    }
+
+    /// chain arithmetic of the second family (indices 2, 3, 4)
+    fn convert2(&self, amount: f64, from: usize, to: usize) -> Option<f64> {
+        let items = self.t2.as_ref()?;
+        for i in from.min(to)..=from.max(to) {
+            if !items.contains(&i) {
+                return None;
+            }
+        }
+        let size = |i: usize| match i {
+            2 => 1.0,
+            3 => 4.0,
+            _ => 12.0,
+        };
+        Some(amount * size(from) / size(to))
     }
 
     /// chain arithmetic of the user family: amount of `from` expressed in `to` (None: chain broken)
@@ -225,7 +283,7 @@ impl Model {
     }
 }
 
-const PROBES_EN: [&str; 17] = ["foo 5", "foo 7", "bar 5", "baz 5", "foo 5 + 1", "foo 7 + bar 1", "3 btc", "3 xyz", "3 btc to try", "10 usd to try", "1 hour 30 minutes", "10% of 200", "2 aone to atwo", "20 aone to athree", "3 athree to aone", "1 atwo to aone", "5 kb to byte"];
+const PROBES_EN: [&str; 21] = ["foo 5", "foo 7", "bar 5", "baz 5", "foo 5 + 1", "foo 7 + bar 1", "3 btc", "3 xyz", "3 btc to try", "10 usd to try", "1 hour 30 minutes", "10% of 200", "2 aone to atwo", "20 aone to athree", "3 athree to aone", "1 atwo to aone", "5 kb to byte", "24 btwo to bfour", "1 bfour to btwo", "8 btwo to bthree", "2 bthree to btwo"];
 const PROBES_TR: [&str; 4] = ["foo 5", "foo 7", "bar 5", "2 gün"];
 
 fn probe(calc: &SmartCalc) -> Vec<(String, Run)> {
@@ -283,7 +341,7 @@ impl Prop for C18 {
                     for _ in 0..len {
                         ops.push(ch.pick(&alphabet).clone());
                     }
-                    Some(Case { ops, pooled: false })
+                    Some(Case { ops, pooled: false, bfs: None })
                 },
             ));
         }
@@ -303,10 +361,25 @@ impl Prop for C18 {
                         choices.extend(alphabet.iter().cloned());
                         ops.push(ch.pick_dev(&choices).clone());
                     }
-                    Some(Case { ops, pooled: false })
+                    Some(Case { ops, pooled: false, bfs: None })
                 },
             ));
         }
+        let offset_depth = tier.pick(4, 6);
+        f.push(Family::new(
+            "offset-family",
+            Mode::Full,
+            "every sequence of 1..=4 (thorough: 6) operations over [add_dynamic_type(t2), add_dynamic_type_item(t2, 2 | 3 | 4), add_rule(en, C)]: a user family whose indices do not start at 1, registered in every order (and with duplicates), next to a rule that matches '<number> <word>' and declines; chain arithmetic against the model",
+            move |ch| {
+                let alphabet = [Op::AddType("t2".into()), Op::AddItem2(2), Op::AddItem2(3), Op::AddItem2(4), Op::AddRule("en".into(), 'C')];
+                let len = 1 + ch.choose(offset_depth);
+                let mut ops = Vec::new();
+                for _ in 0..len {
+                    ops.push(ch.pick(&alphabet).clone());
+                }
+                Some(Case { ops, pooled: false, bfs: None })
+            },
+        ));
         {
             let d = tier.pick(4, 5);
             f.push(Family::new(
@@ -326,11 +399,24 @@ impl Prop for C18 {
                     for _ in 0..len {
                         ops.push(ch.pick(&alphabet).clone());
                     }
-                    Some(Case { ops, pooled: true })
+                    Some(Case { ops, pooled: true, bfs: None })
                 },
             ));
         }
         f
+    }
+
+    fn bfs_layers(&self, tier: Tier) -> Vec<Bfs<Case>> {
+        let alphabet = ops_alphabet();
+        let n = alphabet.len();
+        let (max_en, max_tr, depth) = tier.pick((1, 1, 4), (3, 1, 12));
+        vec![Bfs::new(
+            "reachable-states",
+            &format!("explicit-state search over ALL {} operations from the fresh calculator; a state is the model state (ordered surviving rules per language, user family items) together with the fingerprint of the 21 probe observations; state constraint: at most {} live English and {} live Turkish custom rules (states beyond it are checked but not expanded); every edge replays the shortest history to its source state on a fresh calculator, applies the operation and runs the full oracle (return values, fresh-calculator equivalence, rule effect, chain arithmetic); depth bound {}", n, max_en, max_tr, depth),
+            n,
+            depth,
+            move |h| Case { ops: h.iter().map(|i| alphabet[*i].clone()).collect(), pooled: false, bfs: Some((max_en, max_tr)) },
+        )]
     }
 
     fn rule(&self) -> String {
@@ -431,13 +517,21 @@ impl C18 {
         let mut first_diff = String::new();
         for m in models.iter() {
             let key = format!("fresh|{:?}", m);
-            let reference: Vec<String> = match ctx.memo.get(&key) {
-                Some(j) => j.split('\u{1}').map(|s| s.to_string()).collect(),
+            let cached = match ctx.memo.get(&key) {
+                Some(j) => Some(j.clone()),
+                None => crate::runner::shared_get(&key),
+            };
+            let reference: Vec<String> = match cached {
+                Some(j) => {
+                    ctx.memo.entry(key).or_insert_with(|| j.clone());
+                    j.split('\u{1}').map(|s| s.to_string()).collect()
+                }
                 None => {
                     let fresh = m.build(ctx);
                     let r: Vec<String> = probe(&fresh).iter().map(|(p, r)| format!("{} -> {:?}", p, r)).collect();
                     v.evals += r.len() as u64;
-                    ctx.memo.insert(key, r.join("\u{1}"));
+                    ctx.memo.insert(key.clone(), r.join("\u{1}"));
+                    crate::runner::shared_put(key, r.join("\u{1}"));
                     r
                 }
             };
@@ -521,6 +615,25 @@ impl C18 {
                 "1 atwo to aone" => Some((1.0, 2, 1)),
                 _ => None,
             };
+            let chain2: Option<(f64, usize, usize)> = match line {
+                "24 btwo to bfour" => Some((24.0, 2, 4)),
+                "1 bfour to btwo" => Some((1.0, 4, 2)),
+                "8 btwo to bthree" => Some((8.0, 2, 3)),
+                "2 bthree to btwo" => Some((2.0, 3, 2)),
+                _ => None,
+            };
+            if let (Some((a, from, to)), "en") = (chain2, lang) {
+                if let Some(w) = m.convert2(a, from, to) {
+                    match r.single() {
+                        Some(Slot::Ok { val: Val::Unit(x, g, i), .. }) if obs::close(*x, w, 1e-9) && g == "t2" && *i == to => {}
+                        _ => {
+                            v.expected = format!("{} -> Unit({}, t2, {})", line, w, to);
+                            v.violation = Some(format!("probe {:?}: the user-defined family (indices 2, 3, 4) does not convert along its declared chain", p));
+                            return v;
+                        }
+                    }
+                }
+            }
             if let (Some((a, from, to)), "en") = (chain, lang) {
                 if let Some(w) = m.convert(a, from, to) {
                     match r.single() {
@@ -532,6 +645,49 @@ impl C18 {
                         }
                     }
                 }
+            }
+        }
+        // (4) a line on which no surviving rule produces a token (no pattern matches, or every
+        //     matching rule declines) is evaluated as if no rule were registered: the whole
+        //     observation, highlight tokens included, equals that of a calculator without rules
+        {
+            // the plain reference depends on the unit families of the model: memoise per (t1, t2)
+            let plain_key = format!("plain|{:?}|{:?}", m.t1, m.t2);
+            let plain: Vec<String> = match ctx.memo.get(&plain_key) {
+                Some(j) => j.split('\u{1}').map(|s| s.to_string()).collect(),
+                None => {
+                    let fresh = Model { rules: Vec::new(), ..m.clone() }.build(ctx);
+                    let r: Vec<String> = probe(&fresh).iter().map(|(p, r)| format!("{} -> {:?}", p, r)).collect();
+                    v.evals += r.len() as u64;
+                    ctx.memo.insert(plain_key, r.join("\u{1}"));
+                    r
+                }
+            };
+            for (k, (p, _)) in observed.iter().enumerate() {
+                let (lang, line) = p.split_once('|').unwrap();
+                let may_accept = m.rules.iter().any(|(l, id)| {
+                    l == lang
+                        && match id {
+                            'A' => line.contains("foo 5"),
+                            'B' => line.contains("foo") || line.contains("bar"),
+                            'C' => line.contains("btc"),
+                            _ => line.contains("baz"),
+                        }
+                });
+                if !may_accept && obs_key[k] != plain[k] {
+                    v.expected = format!("as without rules: {}", plain[k]);
+                    v.violation = Some(format!("probe {:?}: no surviving rule produces a token for this line (none matches or all decline), yet it is not evaluated as if no rule were registered (value, output or highlight tokens differ)", p));
+                    return v;
+                }
+            }
+        }
+        if let Some((max_en, max_tr)) = c.bfs {
+            let en = m.rules.iter().filter(|(l, _)| l == "en").count();
+            let tr = m.rules.iter().filter(|(l, _)| l == "tr").count();
+            if en <= max_en && tr <= max_tr {
+                let mut h = std::collections::hash_map::DefaultHasher::new();
+                std::hash::Hash::hash(&obs_key, &mut h);
+                v.key = Some(format!("{:?}|{:?}|{:?}|{:016x}", m.rules, m.t1, m.t2, std::hash::Hasher::finish(&h)));
             }
         }
         v
